@@ -378,6 +378,10 @@ def run(pid, tier, seed, replay=None):
                 elif r in ("C18:crash", "C07:hang-real"):
                     bad.setdefault(v["id"], []).append(pid + (":crash" if "crash" in r else ":hang-real"))
         pick, rules_seen = [], set()
+        for sid in [x for x in bad if x.startswith("popen-real-")]:
+            # the real fork / exec scenario (already repeated until the child's report was there)
+            for r in sorted(set(bad.pop(sid))):
+                rep.violation(sign(pid, r, idx[sid]), vlib.save_replay_text(pid, idx[sid]), "scenario %s" % sid)
         for sid, rules in bad.items():
             if len(pick) < 12 or any(r not in rules_seen for r in rules):
                 pick.append(sid)
